@@ -22,8 +22,13 @@ type Options struct {
 	Quantum  time.Duration
 	MaxSteps int
 	// DevOK restricts which alternatives count as admissible deviations (nil = all).
-	// It receives the name of the alternative (thread name, "clock", or "select:...").
-	DevOK func(name string, depth int) bool
+	// It receives the name of the alternative (thread name, "clock", or "select:...") and
+	// the names of the deviations already taken on this path.
+	DevOK func(name string, prev []string) bool
+	// RevOrder makes the default scheduler prefer the enabled thread with the greatest name
+	// (children before parents, server side before callers): a second family of default
+	// schedules around which deviations are explored.
+	RevOrder bool
 	// Unbounded explores every schedule (Bound is ignored).
 	Unbounded bool
 	// NoLeakCheck disables the generic leak oracle for scenarios that end on purpose
@@ -228,7 +233,12 @@ func RunOnce(t *testing.T, sc *Scenario, prefix []int, expect [][]string) (x *Ex
 					low = append(low, th)
 				}
 			}
-			sort.Slice(norm, func(i, j int) bool { return norm[i].Name < norm[j].Name })
+			sort.Slice(norm, func(i, j int) bool {
+				if o.RevOrder {
+					return norm[i].Name > norm[j].Name
+				}
+				return norm[i].Name < norm[j].Name
+			})
 			for i, th := range norm {
 				if th.Name == last {
 					copy(norm[1:i+1], norm[:i])
